@@ -583,7 +583,9 @@ pub fn run(spec: &Spec) -> Res {
     // key-update ledger of the harness: per node the key phase it last saw and the lowest packet number that can have
     // been sent in the current phase (None = still the keys of the handshake); `ku_unconfirmed` = one of the harness'
     // own force_key_update() calls took effect although no packet of the then-current phase had been acknowledged
-    // (RFC 9001 6.1 forbids initiating that update; quinn's API does not refuse it)
+    // (RFC 9001 6.1 forbids initiating that update; since the repair "force_key_update waits for an acknowledged packet of
+    // the current key phase" quinn refuses it, so this ledger - kept from the harness' own calls and the public snapshot,
+    // not from quinn's guard - can no longer observe such a call: the key below is a tripwire for that repair)
     let ku_phase: Rc<[Cell<bool>; 2]> = Rc::new([Cell::new(false), Cell::new(false)]);
     let ku_first_pn: Rc<[Cell<Option<u64>>; 2]> = Rc::new([Cell::new(None), Cell::new(None)]);
     let ku_unconfirmed: Rc<std::cell::RefCell<Option<String>>> = Rc::new(std::cell::RefCell::new(None));
@@ -835,9 +837,10 @@ pub fn run(spec: &Spec) -> Res {
     if let Some(e) = api_hist.iter_mut().find(|e| e.0 == "keyupdate-at-completion") {
         e.1 = eager_done.get() as u64;
     }
-    // a failure of a run in which the harness itself initiated a key update the RFC forbids, showing the signature of the
-    // resulting key desynchronisation (packets of a peer no longer authenticate, or KEY_UPDATE_ERROR), is the recorded
-    // API finding, not a new violation; everything else keeps its key
+    // a failure of a run in which a force_key_update() of the harness took effect against RFC 9001 6.1, showing the
+    // signature of the resulting key desynchronisation (packets of a peer no longer authenticate, or KEY_UPDATE_ERROR),
+    // is reported under its own narrow key (formerly a recorded finding, now a violation: the library must refuse that
+    // call); everything else keeps its key
     let mut fails: Vec<String> = sim.fails.drain(..).collect();
     if let Some(what) = ku_unconfirmed.borrow().clone() {
         let auth_fail: Vec<u64> = (0..2).filter_map(|x| w.ch[x].map(|ch| sim.snap(x, ch).authentication_failures)).collect();
